@@ -14,6 +14,8 @@ GRemove == \E id \in Ids : Remove(id) /\ Rec(Cmd("remove", id, 0, FALSE, 0, ""))
 GCtxRunning == \E id \in {i \in Ids : i \in DOMAIN items /\ ~items[i].td} : NewCtx(id) /\ Rec(Cmd("ctx", id, 0, FALSE, 0, ""))
 GCtx == \E id \in Ids : NewCtx(id) /\ Rec(Cmd("ctx", id, 0, FALSE, 0, ""))
 GCancel == \E n \in 1..3 : CancelParent(n) /\ Rec(Cmd("cancelctx", n, 0, FALSE, 0, ""))
+GRace == \/ \E id \in Ids, v \in Vals : RaceListPut(id, v) /\ Rec(Cmd("racelist", id, v.ver, v.td, 0, "put"))
+         \/ \E id \in Ids : RaceListRemove(id) /\ Rec(Cmd("racelist", id, 0, FALSE, 0, "remove"))
 GAck == \E r \in Readers : Ack(r) /\ UNCHANGED <<hist, done>>
 GNext ==
   \E coin \in {RandomElement(1..12)} :
@@ -25,6 +27,7 @@ GNext ==
     ELSE IF coin <= 8 THEN (IF \E c \in cx : ~c.cancelled THEN GCancel ELSE GPutTd)
     ELSE IF coin <= 9 THEN GPutTd \/ GRemove
     ELSE IF coin <= 10 THEN (IF \E r \in Readers : rd[r].st = "idle" THEN GRead ELSE GAck)
+    ELSE IF coin <= 11 THEN GRace \/ GPut
     ELSE GAck \/ GPut
 Finish == ~done /\ PrintT(<<"BEH", ToJson(hist)>>) /\ done' = TRUE /\ UNCHANGED vars /\ UNCHANGED hist
 GenInit == Init /\ hist = <<>> /\ done = FALSE
